@@ -167,6 +167,27 @@ NOTES = {
                "a typed method whose omitted parameter has a tuple/list/dict default"),
     "C15_m4": ("an empty wrapper returns generic_visit(node.args[0]): the source itself is not visited",
                "an empty wrapper directly over another empty wrapper"),
+    "C01_m5": ("visit_Where_of_Where splits the first filter's BoolOp into terms without checking that it is an `and`",
+               "a Where whose filter is a top-level `or`, immediately followed by another Where, on data where (a or b) and c differs from a and b and c"),
+    "C19_m5": ("a shortcut name in another arity or with a keyword is returned unvisited (as C19_m3)", "real shortcuts inside Sum(a, len(b))"),
+    "C02_m5": ("signed literal indices folded through a table that maps ~ to -1: ~n becomes -n", "a tuple/list display indexed by ~<int literal>"),
+    "C16_m5": ("QMetaData returns early through clone_with_new_ast(base_ast) whose new_type now defaults to Any", "a typed dataset, a QMetaData that adds nothing new, a downstream lambda that needs type following"),
+    "C03_m5": ("a single candidate under the caller's name is accepted without comparing parameter names", "the passed lambda filed under another name with exactly one neighbour under the method name"),
+    "C15_m5": ("the cleaner copies only nodes that have list-valued fields", "an empty wrapper beneath a node without list fields (Lambda body, Attribute, keyword value, BinOp operand)"),
+    "C04_m5": ("global_getclosurevars adds only globals named in directly nested code objects (as C04_m4)", "a module global used only >= 2 lambda levels down"),
+    "C18_m5": ("any unary operator on an int literal index is folded to Constant(-n)", "a literal indexed by +n, ~n or `not n`"),
+    "C05_m5": ("the arguments of a call deliberately left un-inlined are visited a second time", "a helper calling a second helper under a binder that the second helper also binds, call-site names re-ordered"),
+    "C20_m5": ("NFKC normalisation of the dump (as C20_m4)", "string constants differing by a compatibility character"),
+    "C06_m5": ("global_getclosurevars descends only into <lambda> code objects: names used only in a generator expression are not captured", "a module-global record class used only inside a generator expression"),
+    "C11_m5": ("remove_empty_metadata returns its argument when there is no empty MetaData: the executor receives the live AST", "non-empty MetaData, an executor that calls extract_metadata (in place), then re-inspection of an ancestor or sibling"),
+    "C07_m5": ("a ValueError from default filling on one candidate class moves on to the next candidate", "an Iterable subclass method also present on the collection class with a looser signature, required argument omitted"),
+    "C14_m5": ("the fused SelectMany-of-SelectMany is returned without being re-visited", "a packaging Select inside the inner SelectMany taken apart by the outer one, as the last fused stage"),
+    "C08_m5": ("dataclass field types from dataclasses.fields (raw strings) instead of get_type_hints", "a dataclass field annotated with a forward reference / from __future__ import annotations"),
+    "C13_m5": ("as_literal normalises int subclasses: True becomes 1 (as C13_m3)", "a captured bool or bool default"),
+    "C09_m5": ("a method whose return annotation is missing or Any produces no candidate: callbacks are skipped", "a callback-carrying method without return annotation"),
+    "C17_m5": ("a visit_Attribute shortcut does not walk below two consecutive plain attribute accesses", "x.Op(..).a.b.Op2(..): operator calls beneath a double attribute"),
+    "C10_m5": ("the parameterized-call branch tests `found_type is not None` instead of `!= Any`", "obj.attr[param](args) on an untyped receiver"),
+    "C12_m5": ("TypeError retry without title (as C12_m3)", "an executor raising TypeError, no title"),
     "C20_m2": ("the dump is encoded with errors='replace': non-ASCII characters collapse to '?'",
                "two queries differing in one non-ASCII character at the same position"),
 }
